@@ -245,7 +245,9 @@ theorem kilo_unit_bound_gen (m k : Nat) (hk : k ≤ 3) (hE : m * 10 ^ (3 - k) < 
       rcases hk4 with rfl | rfl | rfl | rfl <;> rw [hEdef] <;> push_cast <;> ring
     set x : ℚ := (m : ℚ) / ((10 ^ k : Nat) : ℚ) with hxdef
     have hxr : (1 : ℚ) / 2 ^ 200 ≤ x ∧ x ≤ 2 ^ 200 := by
-      constructor <;> norm_num at * <;> linarith
+      have c1 : (1 : ℚ) / 2 ^ 200 ≤ 1 / 1000 := by norm_num
+      have c2 : (2 : ℚ) ^ 50 ≤ 2 ^ 200 := by norm_num
+      constructor <;> linarith
     obtain ⟨my, ey, hyeq, hmy, hYerr⟩ := ofRat_spec false m (10 ^ k) hm0 (by positivity)
       (by rw [← hxdef]; exact hxr.1) (by rw [← hxdef]; exact hxr.2)
     rw [← hxdef] at hYerr
